@@ -1192,7 +1192,11 @@ abbrev Tok := Option Step
 def opEq : Str := ['=']
 def opNe : Str := ['!', '=']
 
-def WfTag (t : Str) : Prop := t = star ∨ t = star2 ∨ (t ≠ [] ∧ ∀ c ∈ t, isWord c = true)
+/-- a tag the grammar can write: `*`, `**`, or a name — a word character (letter, digit, `_`)
+followed by word characters, `.` and `-` (`\w[\w.\-]*`; fix C18-e: the whole name is the tag) -/
+def WfTag (t : Str) : Prop :=
+  t = star ∨ t = star2 ∨
+    (t ≠ [] ∧ (∀ c, t.head? = some c → isWord c = true) ∧ ∀ c ∈ t, isNameChar c = true)
 
 /-- a condition the grammar can write: operator `=` or `!=`; the value is not empty, has no quote
 and no `/` (the path split would cut it), and does not begin with `=` after the operator `=`
@@ -1247,38 +1251,35 @@ theorem takeWhile_all {α} (p : α → Bool) (a : List α) (h : ∀ c ∈ a, p c
     have := ih (fun y hy => h y (by simp [hy]))
     simp [hc, this.1, this.2]
 
-theorem lastBr_close (v : Str) : ∀ (acc : Str) (best : Option Str), (acc ≠ [] ∨ v ≠ []) →
-    lastBr acc best (v ++ [']']) = some (acc.reverse ++ v) := by
-  induction v with
-  | nil =>
-    intro acc best h
-    have ha : acc ≠ [] := by rcases h with h | h; exact h; exact absurd rfl h
-    cases acc with
-    | nil => exact absurd rfl ha
-    | cons a acc => simp [lastBr]
-  | cons c v ih =>
-    intro acc best _
-    rw [List.cons_append, lastBr, ih (c :: acc) _ (Or.inl (by simp))]
-    simp
+theorem dropQuote_noq (s : Str) (h : ∀ c, s.head? = some c → isQuote c = false) : dropQuote s = s := by
+  cases s with
+  | nil => rfl
+  | cons c r => simp [dropQuote, h c rfl]
 
 theorem condTail_value (v : Str) (hne : v ≠ []) (hq : ∀ c ∈ v, isQuote c = false) :
     condTail (v ++ [']']) = some v := by
-  cases v with
-  | nil => exact absurd rfl hne
-  | cons c v =>
-    have hc : isQuote c = false := hq c (by simp)
-    have hall : ∀ x ∈ (c :: v) ++ [']'], (fun c => !isQuote c) x = true := by
-      intro x hx
-      rcases List.mem_append.1 hx with h | h
-      · simp [hq x h]
-      · simp at h; subst h; decide
-    have htw := takeWhile_all (fun c => !isQuote c) ((c :: v) ++ [']']) hall
-    unfold condTail
-    simp only [List.cons_append, hc, Bool.false_eq_true, if_false]
-    simp only [List.cons_append] at htw
-    rw [htw.1, htw.2]
-    have := lastBr_close (c :: v) [] none (Or.inr (by simp))
-    simpa using this
+  have h1 : dropQuote (v ++ [']']) = v ++ [']'] := by
+    apply dropQuote_noq
+    intro c hc
+    cases v with
+    | nil => exact absurd rfl hne
+    | cons d v => simp at hc; subst hc; exact hq _ (by simp)
+  have h2 : dropQuote v.reverse = v.reverse := by
+    apply dropQuote_noq
+    intro c hc
+    exact hq c (by simpa using List.mem_of_mem_head? hc)
+  have h3 : v.reverse.isEmpty = false := by
+    cases v with
+    | nil => exact absurd rfl hne
+    | cons d v => simp
+  have h4 : v.reverse.any isQuote = false := by
+    rw [List.any_eq_false]
+    intro c hc
+    simp [hq c (by simpa using hc)]
+  unfold condTail
+  rw [h1]
+  simp only [List.reverse_append, List.reverse_cons, List.reverse_nil, List.nil_append,
+    List.singleton_append, h2, h3, h4, Bool.or_self, Bool.false_eq_true, if_false, List.reverse_reverse]
 
 theorem parseCond_render (c : Option (Str × Str)) (h : WfCond c) : parseCond (renderCond c) = c := by
   cases c with
@@ -1342,31 +1343,121 @@ theorem parseIdx_render (i : Option (Option Nat)) (c : Option (Str × Str)) :
 
 theorem parseTag_render (tag rest : Str) (h : WfTag tag) (hr : RestOK rest) :
     parseTag (tag ++ rest) = some (tag, rest) := by
-  have hnw : isWord '[' = false := by decide
+  have hnw : isNameChar '[' = false := by decide
   have hns : isWord '*' = false := by decide
-  rcases h with h | h | ⟨hne, hw⟩
+  rcases h with h | h | ⟨hne, hh, hw⟩
   · subst h
     rcases hr with hr | ⟨r, hr⟩ <;> subst hr <;> simp [star, parseTag, hns]
   · subst h
     rcases hr with hr | ⟨r, hr⟩ <;> subst hr <;> simp [star2, parseTag, hns]
-  · have hsplit : (tag ++ rest).takeWhile isWord = tag ∧ (tag ++ rest).dropWhile isWord = rest := by
-      rcases hr with hr | ⟨r, hr⟩
-      · subst hr
-        simpa using takeWhile_all isWord tag hw
-      · subst hr
-        exact takeWhile_append_stop isWord tag '[' r hw hnw
-    unfold parseTag
-    rw [hsplit.1, hsplit.2]
-    cases tag with
+  · cases tag with
     | nil => exact absurd rfl hne
-    | cons c t => rfl
+    | cons c t =>
+      have hc : isWord c = true := hh c rfl
+      have hwt : ∀ x ∈ t, isNameChar x = true := fun x hx => hw x (by simp [hx])
+      have hsplit : (t ++ rest).takeWhile isNameChar = t ∧ (t ++ rest).dropWhile isNameChar = rest := by
+        rcases hr with hr | ⟨r, hr⟩
+        · subst hr
+          simpa using takeWhile_all isNameChar t hwt
+        · subst hr
+          exact takeWhile_append_stop isNameChar t '[' r hwt hnw
+      simp only [List.cons_append, parseTag, hc, if_true, hsplit.1, hsplit.2]
 
 /-- the step parser inverts rendering on the grammar -/
 theorem parseStep_render (st : Step) (h : WfStep st) : parseStep (renderStepE st) = some st := by
   obtain ⟨ht, hc⟩ := h
   unfold parseStep renderStepE
   rw [parseTag_render st.tag _ ht (renderIdxCond_rest st.idx st.cond)]
-  simp only [parseIdx_render, parseCond_render st.cond hc]
+  simp only [parseIdx_render]
+  obtain ⟨tag, idx, cond⟩ := st
+  cases cond with
+  | none => simp [renderCond]
+  | some ov =>
+    have hp := parseCond_render (some ov) hc
+    obtain ⟨op, v⟩ := ov
+    simp only [renderCond, List.cons_append] at hp ⊢
+    simp only [hp]
+
+/-! #### the step is read whole (fix C18-e): what the parser accepts it has consumed -/
+
+theorem parseTag_split (s tag r : Str) (h : parseTag s = some (tag, r)) : s = tag ++ r := by
+  unfold parseTag at h
+  cases s with
+  | nil => cases h
+  | cons c t =>
+    simp only at h
+    by_cases hc : isWord c = true
+    · simp only [hc, if_true, Option.some.injEq, Prod.mk.injEq] at h
+      rw [← h.1, ← h.2, List.cons_append, List.takeWhile_append_dropWhile]
+    · have hc' : isWord c = false := by simpa using hc
+      simp only [hc', Bool.false_eq_true, if_false] at h
+      split at h
+      · next r' e =>
+        simp only [Option.some.injEq, Prod.mk.injEq] at h
+        rw [e, ← h.1, ← h.2]; rfl
+      · next r' _ e =>
+        simp only [Option.some.injEq, Prod.mk.injEq] at h
+        rw [e, ← h.1, ← h.2]; rfl
+      · cases h
+
+theorem parseIdx_rest (r : Str) (i : Option (Option Nat)) (r1 : Str) (h : parseIdx r = (i, r1)) :
+    (i = none ∧ r1 = r) ∨ (i ≠ none ∧ r.head? = some '[') := by
+  unfold parseIdx at h
+  split at h
+  · cases h; exact Or.inr ⟨by simp, rfl⟩
+  · split at h
+    · cases h; exact Or.inr ⟨by simp, rfl⟩
+    · cases h; exact Or.inl ⟨rfl, rfl⟩
+  · cases h; exact Or.inl ⟨rfl, rfl⟩
+
+theorem parseCond_head (r : Str) (c : Str × Str) (h : parseCond r = some c) : r.head? = some '[' := by
+  unfold parseCond at h
+  split at h
+  · rfl
+  · cases h
+
+/-- a step the parser accepts is its tag followed by what the index / condition groups read:
+nothing between the tag and the first `[`, and a step read without index and condition is its tag -/
+theorem parseStep_whole (step : Str) (st : Step) (h : parseStep step = some st) :
+    ∃ mid, step = st.tag ++ mid ∧ (mid = [] ∨ mid.head? = some '[') ∧
+      (st.idx = none → st.cond = none → mid = []) := by
+  unfold parseStep at h
+  cases ht : parseTag step with
+  | none => rw [ht] at h; cases h
+  | some tr =>
+    obtain ⟨tag, r⟩ := tr
+    rw [ht] at h
+    simp only at h
+    have hs := parseTag_split step tag r ht
+    cases hi : parseIdx r with
+    | mk i r1 =>
+      rw [hi] at h
+      have hr := parseIdx_rest r i r1 hi
+      cases r1 with
+      | nil =>
+        simp only [Option.some.injEq] at h
+        subst h
+        refine ⟨r, hs, ?_, ?_⟩
+        · rcases hr with ⟨_, e⟩ | ⟨_, e⟩
+          · exact Or.inl e.symm
+          · exact Or.inr e
+        · intro hi0 _
+          rcases hr with ⟨_, e⟩ | ⟨e, _⟩
+          · exact e.symm
+          · exact absurd hi0 e
+      | cons c r1 =>
+        simp only at h
+        cases hc : parseCond (c :: r1) with
+        | none => rw [hc] at h; cases h
+        | some cd =>
+          rw [hc] at h
+          simp only [Option.some.injEq] at h
+          subst h
+          refine ⟨r, hs, Or.inr ?_, ?_⟩
+          · rcases hr with ⟨_, e⟩ | ⟨_, e⟩
+            · rw [← e]; exact parseCond_head _ _ hc
+            · exact e
+          · intro _ hc0; cases hc0
 
 theorem renderStepE_ne_dotdot (st : Step) (h : WfStep st) : renderStepE st ≠ dotdot := by
   intro e
@@ -1382,7 +1473,7 @@ theorem parseTok_render (t : Tok) (h : WfTok t) : parseTok (renderTok t) = some 
     simp only [renderTok, parseTok, renderStepE_ne_dotdot st h, if_false, parseStep_render st h]
     rfl
 
-theorem isWord_noSlashBr (c : Char) (h : isWord c = true) : c ≠ '/' ∧ c ≠ '[' := by
+theorem isWord_noSlashBr (c : Char) (h : isNameChar c = true) : c ≠ '/' ∧ c ≠ '[' := by
   constructor <;> (intro e; subst e; revert h; decide)
 
 theorem stepOK_renderTok (t : Tok) (h : WfTok t) : StepOK (renderTok t) := by
@@ -1391,7 +1482,7 @@ theorem stepOK_renderTok (t : Tok) (h : WfTok t) : StepOK (renderTok t) := by
   | some st =>
     obtain ⟨ht, hc⟩ := h
     have htag : (∀ c ∈ st.tag, c ≠ '/') ∧ st.tag ≠ [] ∧ st.tag.head? ≠ some '[' := by
-      rcases ht with ht | ht | ⟨hne, hw⟩
+      rcases ht with ht | ht | ⟨hne, _, hw⟩
       · rw [ht]; exact ⟨by decide, by decide, by decide⟩
       · rw [ht]; exact ⟨by decide, by decide, by decide⟩
       · refine ⟨fun c hc => (isWord_noSlashBr c (hw c hc)).1, hne, ?_⟩
@@ -1607,11 +1698,11 @@ theorem renderTok_ends_stars (x : Tok) (h : WfTok x) (pre : Str) (e : renderTok 
           simp [renderIdx, renderCond]
       | none =>
         simp only [renderIdx, renderCond, List.append_nil] at hlast hlen
-        rcases ht with ht | ht | ⟨_, hw⟩
+        rcases ht with ht | ht | ⟨_, _, hw⟩
         · simp only at ht; subst ht; simp [star] at hlen
         · simp only at ht; subst ht; rfl
         · have := hw '*' (List.mem_of_getLast? hlast)
-          have hns : isWord '*' = false := by decide
+          have hns : isNameChar '*' = false := by decide
           rw [hns] at this
           cases this
 
@@ -1623,7 +1714,7 @@ theorem renderTok_starts_stars (y : Tok) (h : WfTok y) (rest : Str)
   | some st =>
     obtain ⟨tag, idx, cond⟩ := st
     obtain ⟨ht, _⟩ := h
-    rcases ht with ht | ht | ⟨hne, hw⟩
+    rcases ht with ht | ht | ⟨hne, _, hw⟩
     · simp only at ht; subst ht
       exfalso
       rcases renderIdxCond_rest idx cond with h0 | ⟨r, h0⟩
@@ -1639,7 +1730,7 @@ theorem renderTok_starts_stars (y : Tok) (h : WfTok y) (rest : Str)
       | cons c t =>
         simp [renderTok, renderStepE, startsWith, star2] at hs
         have := hw c (by simp)
-        have hns : isWord '*' = false := by decide
+        have hns : isNameChar '*' = false := by decide
         rw [hs.1, hns] at this
         cases this
 
